@@ -1,4 +1,4 @@
-(** The reference semantics [CodeSem.code_sem] of a design of fragment F0 in
+(** The reference semantics [CodeSem.code_sem] of a design of fragment F1 in
     closed form, and a generic lemma that establishes [Sem.chunks_ok] from a
     decomposition of the trial sequence into blocks.  Proof file. *)
 From Coq Require Import ZArith List Bool Arith Lia.
@@ -33,12 +33,12 @@ Qed.
 
 Section F0S.
 Variable fb : flat.
-Hypothesis HF : frag0 fb = true.
+Hypothesis HF : frag1 fb = true.
 
 Local Notation c := (the_crossing fb).
 Local Notation n := (length (fl_design fb)).
 Local Notation q := (f0_q fb).
-Local Notation prod := (Enum.product (map (all_levels fb) c)).
+Local Notation prod := (f0_cprod fb).
 Local Notation S0 := (code_sem fb).
 
 Lemma f0_sustain_of f : sustain_of fb f = 1.
@@ -72,19 +72,19 @@ Proof.
   apply nth_error_In in Hd. apply (f0_basic fb (f0_unpack fb HF)) in Hd. destruct Hd as [Hw _]. rewrite Hw. reflexivity.
 Qed.
 
-Lemma f0_sem_constraints : s_constraints S0 = [].
-Proof.
-  unfold code_sem, CodeSem.code_sem. cbn [s_constraints].
-  pose proof (f0_constraints fb (f0_unpack fb HF)) as H.
-  induction (fl_constraints fb) as [|k t IH]; [reflexivity|].
-  cbn [flat_map]. rewrite IH by (intros x Hx; apply H; right; exact Hx).
-  specialize (H k (or_introl eq_refl)). destruct k; try contradiction; reflexivity.
-Qed.
+Lemma f0_sem_constraints : s_constraints S0 = flat_map (CodeSem.code_constraint fb) (fl_constraints fb).
+Proof. reflexivity. Qed.
 
-Lemma f0_compile_not_excluded di : Compile.is_excluded_or_inconsistent fb di = false.
+Lemma compile_lookup_eq (di : list (nat * nat)) f : Compile.lookup_level di f = alookup di f.
+Proof. unfold Compile.lookup_level, alookup. destruct (find (fun p => fst p =? f) di); reflexivity. Qed.
+
+Lemma compile_excluded_eq di : Compile.is_excluded_combination fb di = Enum.is_excluded_combination fb di.
+Proof. reflexivity. Qed.
+
+Lemma f0_compile_not_excluded di : Compile.is_excluded_or_inconsistent fb di = Enum.is_excluded_combination fb di.
 Proof.
-  unfold Compile.is_excluded_or_inconsistent, Compile.is_excluded_combination.
-  rewrite (f0_exclude fb (f0_unpack fb HF)), (f0_excluded_derived fb (f0_unpack fb HF)). cbn [existsb orb].
+  unfold Compile.is_excluded_or_inconsistent. rewrite compile_excluded_eq.
+  destruct (Enum.is_excluded_combination fb di); [reflexivity|]. cbn [orb].
   apply not_true_is_false. intros H. apply existsb_exists in H. destruct H as [p [_ H]].
   destruct (factor_at fb (fst p)) as [fd|] eqn:E; [|discriminate].
   unfold factor_at in E. apply nth_error_In in E. apply (f0_basic fb (f0_unpack fb HF)) in E.
@@ -93,9 +93,9 @@ Qed.
 
 Lemma f0_compile_combos : Compile.trial_combinations_of fb c = map (fun ls => combine c ls) prod.
 Proof.
-  unfold Compile.trial_combinations_of. rewrite filter_all by (intros x _; rewrite f0_compile_not_excluded; reflexivity).
-  unfold Compile.crossing_combos. rewrite compile_product_eq.
-  apply (product_pairs c (fun f => seq 0 (nlevels fb f))).
+  unfold Compile.trial_combinations_of, Compile.crossing_combos. rewrite compile_product_eq.
+  rewrite (product_pairs c (fun f => seq 0 (nlevels fb f))). rewrite filter_map_comm. f_equal.
+  unfold f0_cprod, allowed_combos. apply filter_ext. intros ls. rewrite f0_compile_not_excluded. reflexivity.
 Qed.
 
 Lemma f0_compile_level_weight f l : In f c -> Compile.level_weight fb f l = 1.
@@ -138,7 +138,7 @@ Proof.
   rewrite Hw, Hp. rewrite (f0_sizes fb (f0_unpack fb HF)). cbn [nth]. rewrite Nat.mul_1_r.
   f_equal. rewrite f0_compile_combos. rewrite map_map. apply map_ext_in. intros ls Hls.
   rewrite f0_compile_combination_weight, f0_sustain_of. cbn [Nat.mul].
-  rewrite map_snd_combine; [reflexivity|]. rewrite (product_length_elem _ _ Hls). rewrite map_length. reflexivity.
+  rewrite map_snd_combine; [reflexivity|]. rewrite (product_length_elem _ _ (f0_cprod_in_prod fb HF ls Hls)). rewrite map_length. reflexivity.
 Qed.
 
 End F0S.
